@@ -10,7 +10,7 @@ package keeper
 //@ func GetInputPrice
 //@   property C01
 //@   returns r
-//@   requires inputAmt > 0 && inputReserve > 0 && outputReserve > 0
+//@   requires inputAmt >= 0 && inputReserve > 0 && outputReserve > 0
 //@   requires !isnil(fee) && 0 <= raw(fee) && raw(fee) < DEC_ONE
 //@   let f = DEC_ONE - raw(fee)
 //@   ensures cp:      (inputReserve*DEC_ONE + f*inputAmt) * (outputReserve - r) >= inputReserve*outputReserve*DEC_ONE
@@ -74,7 +74,7 @@ package keeper
 //@   property C01
 //@   returns r, err
 //@   requires paramsStored
-//@   requires exactSoldCoin.Amount > 0
+//@   requires exactSoldCoin.Amount >= 0
 //@   let pa = poolAddrOf(poolOf(cpDenom(exactSoldCoin.Denom, boughtTokenDenom)))
 //@   let X = bal(pa, exactSoldCoin.Denom)
 //@   let Y = bal(pa, boughtTokenDenom)
@@ -134,4 +134,62 @@ package keeper
 //@   ensures almost_minimal: err == nil && sold >= 2 ==> (X*DEC_ONE + FEEF*(sold-2)) * (Y - output.Coin.Amount) < X*Y*DEC_ONE
 //@   ensures ledger:  err == nil ==> bal == leg(old(bal), sender, rcpt, pa, input.Coin.Denom, sold, output.Coin.Denom, output.Coin.Amount)
 //@   ensures share:   err == nil && sender != pa ==> bal(pa, input.Coin.Denom) * bal(pa, output.Coin.Denom) >= X * Y
+//@ end
+
+// ---------------------------------------------------------------------------------------------
+// Routed (double-hop) orders. Property C02: "for routed token-to-token swaps the intermediate standard coin
+// nets to zero for both [sender and recipient]" and "changes no other account except the pools involved".
+// The ledger clause is the composition of two legs in which the intermediate standard coin goes to the sender
+// and is spent by the sender; S1 (the intermediate amount) is read off pool 1's reserve change.
+
+//@ func Keeper.doubleTradeExactInputForOutput
+//@   property C01, C02
+//@   returns bought, err
+//@   requires paramsStored
+//@   requires input.Coin.Amount > 0
+//@   requires input.Coin.Denom != STD && output.Coin.Denom != STD && input.Coin.Denom != output.Coin.Denom
+//@   let std = STD
+//@   let sender = addr(input.Address)
+//@   let rcpt = rcptOf(sender, addr(output.Address))
+//@   let pa1 = poolAddrOf(poolOf(input.Coin.Denom))
+//@   let pa2 = poolAddrOf(poolOf(output.Coin.Denom))
+//@   let X1 = bal(pa1, input.Coin.Denom)
+//@   let Y1 = bal(pa1, std)
+//@   let X2 = bal(pa2, std)
+//@   let Y2 = bal(pa2, output.Coin.Denom)
+//@   modifies bal
+//@   ensures bound:  err == nil ==> bought >= output.Coin.Amount
+//@   ensures ledger: err == nil && sender != pa1 && sender != pa2 && pa1 != pa2 && rcpt != pa1 && rcpt != pa2 ==>
+//@           bal == leg(leg(old(bal), sender, sender, pa1, input.Coin.Denom, input.Coin.Amount, std, Y1 - bal(pa1, std)),
+//@                      sender, rcpt, pa2, std, Y1 - bal(pa1, std), output.Coin.Denom, bought)
+//@   ensures hop1_cp: err == nil && sender != pa1 && sender != pa2 && pa1 != pa2 && rcpt != pa1 && rcpt != pa2 ==>
+//@           (X1*DEC_ONE + FEEF*input.Coin.Amount) * bal(pa1, std) >= X1*Y1*DEC_ONE
+//@   ensures hop2_cp: err == nil && sender != pa1 && sender != pa2 && pa1 != pa2 && rcpt != pa1 && rcpt != pa2 ==>
+//@           (X2*DEC_ONE + FEEF*(Y1 - bal(pa1, std))) * (Y2 - bought) >= X2*Y2*DEC_ONE
+//@ end
+
+//@ func Keeper.doubleTradeInputForExactOutput
+//@   property C01, C02
+//@   returns sold, err
+//@   requires paramsStored
+//@   requires output.Coin.Amount > 0
+//@   requires input.Coin.Denom != STD && output.Coin.Denom != STD && input.Coin.Denom != output.Coin.Denom
+//@   let std = STD
+//@   let sender = addr(input.Address)
+//@   let rcpt = rcptOf(sender, addr(output.Address))
+//@   let pa1 = poolAddrOf(poolOf(input.Coin.Denom))
+//@   let pa2 = poolAddrOf(poolOf(output.Coin.Denom))
+//@   let X1 = bal(pa1, input.Coin.Denom)
+//@   let Y1 = bal(pa1, std)
+//@   let X2 = bal(pa2, std)
+//@   let Y2 = bal(pa2, output.Coin.Denom)
+//@   modifies bal
+//@   ensures bound:  err == nil ==> sold <= input.Coin.Amount
+//@   ensures ledger: err == nil && sender != pa1 && sender != pa2 && pa1 != pa2 && rcpt != pa1 && rcpt != pa2 ==>
+//@           bal == leg(leg(old(bal), sender, sender, pa1, input.Coin.Denom, sold, std, Y1 - bal(pa1, std)),
+//@                      sender, rcpt, pa2, std, Y1 - bal(pa1, std), output.Coin.Denom, output.Coin.Amount)
+//@   ensures hop2_cp: err == nil && sender != pa1 && sender != pa2 && pa1 != pa2 && rcpt != pa1 && rcpt != pa2 ==>
+//@           (X2*DEC_ONE + FEEF*(Y1 - bal(pa1, std))) * (Y2 - output.Coin.Amount) >= X2*Y2*DEC_ONE
+//@   ensures hop1_cp: err == nil && sender != pa1 && sender != pa2 && pa1 != pa2 && rcpt != pa1 && rcpt != pa2 ==>
+//@           (X1*DEC_ONE + FEEF*sold) * bal(pa1, std) >= X1*Y1*DEC_ONE
 //@ end
